@@ -45,7 +45,7 @@ def strategy(tier):
         # script mode (cmake -P) or a project configured from a working directory that is not its source directory
         "via": st.sampled_from(["script", "project", "script"]),
         # characters CMake's path helpers treat specially (list separators of search paths, Windows separators)
-        "odd_paths": st.sampled_from([False, True, False]),
+        "odd_paths": st.sampled_from([False, True, False, "bracket"]),
     })
 
 
@@ -77,6 +77,8 @@ def evaluate(case):
         os.makedirs(work)
         odd = bool(case.get("odd_paths"))
         n_in, n_cm, n_cli = ("in:put", "out:cm\\a", "out:cli\\a") if odd else ("in put", "out cm", "out cli")
+        if case.get("odd_paths") == "bracket":
+            n_in, n_cm, n_cli = "mods[legacy", "out]cm", "out]cli"      # unbalanced brackets matter when CMake splits lists
         if odd:
             res.labels.append("paths-with-colon-and-backslash")
         inp = os.path.join(work, n_in)
